@@ -54,6 +54,10 @@ pub enum Op {
   TrySendBatchMut(u16, u16),
   TryRecvBatchMut(u16, u16),
   CloseTx(u16),
+  /// close() while futures of that very handle are pending (legal: both take &self); the tasks
+  /// stay, exempt from the stall oracle; conservation still binds them
+  CloseTxInFlight(u16),
+  CloseRxInFlight(u16),
   DropTx(u16),
   CloneTx(u16),
   ConvTx(u16),
@@ -101,6 +105,8 @@ pub fn op_strategy(f: Flavour, lifecycle_w: u32) -> BoxedStrategy<Op> {
     (b / 2, (h, small_n()).prop_map(|(a, n)| Op::TrySendBatchMut(a, n)).boxed()),
     (b / 2, (h, small_n()).prop_map(|(a, n)| Op::TryRecvBatchMut(a, n)).boxed()),
     (lifecycle_w, h.prop_map(Op::CloseTx).boxed()),
+    (1, h.prop_map(Op::CloseTxInFlight).boxed()),
+    (1, h.prop_map(Op::CloseRxInFlight).boxed()),
     (lifecycle_w, h.prop_map(Op::DropTx).boxed()),
     (lifecycle_w * 2, h.prop_map(Op::CloneTx).boxed()),
     (lifecycle_w, h.prop_map(Op::ConvTx).boxed()),
@@ -176,6 +182,8 @@ struct SendRec {
   /// step at which the send was known complete (Ok); u64::MAX while unknown
   done: u64,
   ok: bool,
+  /// the send reported failure (Closed / Full / Sent): "the value is never delivered"
+  failed: bool,
 }
 
 struct Run<'a> {
@@ -251,7 +259,7 @@ impl<'a> Run<'a> {
   // ---- bookkeeping of completed operations --------------------------------------------------
 
   fn note_send_start(&mut self, id: u32, hid: u32) {
-    self.sends.insert(id, SendRec { hid, start: self.now, done: u64::MAX, ok: false });
+    self.sends.insert(id, SendRec { hid, start: self.now, done: u64::MAX, ok: false, failed: false });
   }
   fn note_send_ok(&mut self, id: u32) {
     let now = self.now;
@@ -261,12 +269,23 @@ impl<'a> Run<'a> {
     }
   }
 
+  fn note_send_failed(&mut self, id: u32) {
+    if let Some(r) = self.sends.get_mut(&id) {
+      r.failed = true;
+    }
+  }
+
   fn note_recv(&mut self, form: &str, rhid: u32, rstart: u64, id: u32) -> R {
     if id == u32::MAX - 1 {
       fail!("C01", sig(self.s, form, "sentinel_returned"), "a receive returned a pre-existing element of the output vector");
     }
     if !self.sends.contains_key(&id) {
       fail!("C01", sig(self.s, form, "phantom"), "received #{id} which was never handed to a send");
+    }
+    // C01: "An operation that reports failure (Full, Closed, Sent ...) has no effect on the
+    // channel: the value is never delivered"
+    if self.sends[&id].failed {
+      fail!("C01", sig(self.s, form, "failed_send_delivered"), "received #{id} although its send had reported failure");
     }
     if self.s.flavour == Flavour::Broadcast {
       // C07: every receiver obtains every value at most once and in send order (the single
@@ -393,6 +412,10 @@ impl<'a> Run<'a> {
           if live_rx && !self_closed && !t.closed_at_start {
             fail!("C04", sig(self.s, "send_fut", "closed_but_open"), "send future failed Closed while a receiver handle is alive and the sender handle is open");
           }
+          if self.received.contains(&id) {
+            fail!("C01", sig(self.s, "send_fut", "failed_send_delivered"), "send future of #{id} reported Closed although a receiver had already obtained the value");
+          }
+          self.note_send_failed(id);
           Ok(())
         }
       },
@@ -1068,14 +1091,18 @@ impl<'a> Run<'a> {
       Op::TrySendBatchMut(i, n) if ntx > 0 => self.try_send_batch(idx(*i, ntx), *n as usize, true),
       Op::TryRecvBatch(i, n) if nrx > 0 => self.try_recv_batch(idx(*i, nrx), *n as usize, false),
       Op::TryRecvBatchMut(i, n) if nrx > 0 => self.try_recv_batch(idx(*i, nrx), *n as usize, true),
-      Op::CloseTx(i) if ntx > 0 => {
+      Op::CloseTx(i) | Op::CloseTxInFlight(i) if ntx > 0 => {
         let h = idx(*i, ntx);
         self.now += 1;
-        // precondition: a handle is closed by its owner when no operation of that handle is in
-        // flight (what a close() racing the handle's own pending future means is unspecified)
-        {
+        // CloseTx: the handle is closed by its owner when no operation of that handle is in
+        // flight.  CloseTxInFlight: its pending futures stay; whether they are woken is
+        // unspecified (they are exempt from the stall oracle), but what they report must still be
+        // true: Ok => delivered exactly once, Closed => never delivered (C01)
+        if matches!(op, Op::CloseTx(_)) {
           let hid = self.tx[h].hid;
           self.cancel_tasks_of(true, hid)?;
+        } else {
+          self.rep.class("close_with_own_future_in_flight");
         }
         let was = self.tx[h].closed;
         if !self.tasks_of(true, self.tx[h].hid).is_empty() {
@@ -1093,10 +1120,10 @@ impl<'a> Run<'a> {
           (true, true) => fail!("C04", sig(self.s, "close_tx", "second_close_ok"), "second close() returned Ok"),
         }
       }
-      Op::CloseRx(i) if nrx > 0 => {
+      Op::CloseRx(i) | Op::CloseRxInFlight(i) if nrx > 0 => {
         let h = idx(*i, nrx);
         self.now += 1;
-        {
+        if matches!(op, Op::CloseRx(_)) {
           let hid = self.rx[h].hid;
           // a parked stream stays registered (see spawn); closing the handle it belongs to
           // is legal once the `next()` future is gone — the stream task is kept and exempt
@@ -1104,6 +1131,8 @@ impl<'a> Run<'a> {
           if !self.has_stream_task(h) {
             self.cancel_tasks_of(false, hid)?;
           }
+        } else {
+          self.rep.class("close_with_own_future_in_flight");
         }
         let was = self.rx[h].closed;
         if !self.tasks_of(false, self.rx[h].hid).is_empty() {
